@@ -1036,6 +1036,66 @@ def skeleton_translation(res, tier, seed, workdir, stats, pid="C05"):
         stats.append(dict(st2, escalation="skeleton translation"))
 
 
+LADDER_LEAN = os.path.join(hh.LEAN, "HH", "Generated", "Ladder.lean")
+
+
+def ladder_translation(res, tier, seed, workdir, stats):
+    """tie of C10's selection model to the text of src/builder.rs: `ladgen` translates the cfg/run-time ladders of
+    HighwayHasher::new and ::from_checkpoint into decision functions Cfg -> Cpu -> Option Backend, and extracts the union
+    members, the (tag, member, constructed type) literals of the ladders and the arms of every `match self.tag`; the generated
+    theorems say: translated ladder = the model's selectNew / selectRestore for every configuration and CPU; every literal
+    builds the member's own type under the model's tag; every dispatch arm reads the member its tag names; every dispatch site
+    has an arm, existing in the configuration, for the tag the ladder selects (tag validity from the source).
+    Advisory: skipped items / failing theorems escalate the search, never an alarm by themselves."""
+    cdir = os.path.join(hh.ROOT, "harness", "facts")
+    rc, out, err = hh.sh(["cargo", "build", "--offline", "--release", "-q"], cwd=cdir, env={"CARGO_TARGET_DIR": os.path.join(hh.BUILD, "t-facts")}, timeout=1800)
+    info = dict(translator="harness/facts/src/bin/ladgen.rs (syn; cfg attributes, cfg!(), is_x86_feature_detected!() and early returns of the ladders as a decision function; union / literal / dispatch-arm tables)")
+    res.cov["ladder_translation"] = info
+    if rc != 0:
+        info["status"] = "not executed: translator does not build"
+        return
+    tmp = LADDER_LEAN + ".new"
+    status_json = os.path.join(hh.BUILD, "ladgen.json")
+    rc, out, err = hh.sh([os.path.join(hh.BUILD, "t-facts", "release", "ladgen"), os.path.join(hh.REPO, "src", "builder.rs"), tmp, status_json], timeout=300)
+    if rc != 0:
+        info["status"] = "not executed: translator failed: " + (out + err)[-300:]
+        return
+    new = open(tmp).read()
+    old = open(LADDER_LEAN).read() if os.path.exists(LADDER_LEAN) else None
+    if new != old:
+        os.replace(tmp, LADDER_LEAN)
+    else:
+        os.unlink(tmp)
+    st = json.load(open(status_json))
+    info["items"] = st
+    skipped = [k for k, v in st.items() if v != "translated"]
+    thms = ["ctor_arms_ok", "dispatch_arms_ok"]
+    if st.get("HighwayChoices") == "translated":
+        thms += ["union_typed", "dispatch_member_exists"]
+    if st.get("HighwayHasher::new") == "translated":
+        thms += ["selectNew_eq", "dispatch_total_new"]
+    if st.get("HighwayHasher::from_checkpoint") == "translated":
+        thms += ["selectRestore_eq", "dispatch_total_restore"]
+    thms = ["HH.Gen.Ladder." + t for t in thms]
+    ok, blog = hh.lake_build(["HH.Generated.Ladder"])
+    good = []
+    if ok:
+        ax, text = hh.audit_axioms("HH.Generated.Ladder", thms)
+        good = [t for t in thms if ax.get(t) is not None and not (ax[t] - hh.STD_AXIOMS)]
+        info["theorems_checked"] = good
+    info["status"] = f"{len(st) - len(skipped)}/{len(st)} items translated from the working tree; {len(good)}/{len(thms)} theorems (ladder = model for all Cfg x Cpu; literals / dispatch arms consistent with the model's tags; tag validity at every dispatch site) checked by the kernel"
+    if ok and len(good) == len(thms) and not skipped:
+        return
+    errs = [l for l in blog.split("\n") if "error" in l][:6]
+    info["status"] = (info["status"] + (" | skipped: " + "; ".join(f"{k}: {st[k]}" for k in skipped) if skipped else "") + (" | generated theorems do not all check: " + " ".join(errs) if errs else ""))[:1200]
+    res.notes.append("the selection ladder / dispatch tables translated from src/builder.rs no longer match the model: escalating the C10 search (thorough generator on the real code)")
+    binp, _ = hh.build_runner("dev-std-base")
+    if binp:
+        i2 = hh.runner_info(binp)
+        st2 = check_mod().run_config(res, "C10", "thorough", seed * 4099 + 29, "dev-std-base", binp, i2, workdir, label="esc-ladder")
+        stats.append(dict(st2, escalation="ladder translation"))
+
+
 _c05_cross = mk_cross("C05", gen_cross_c05, ["s390x", "i686"])
 
 
@@ -1065,4 +1125,4 @@ def special_c14(res, tier, seed, workdir, stats):
 T.SPECIAL.update({"C02": simd_translation, "C01": special_c01, "C05": special_c05, "C06": mk_cross("C06", gen_cross_c06),
                   "C07": special_c07, "C12": mk_cross("C12", gen_cross_c12),
                   "C11": special_c11, "C13": mk_cross("C13", gen_cross_c13), "C14": special_c14})
-T.SPECIAL.update({"C15": special_c15, "C09": special_c09, "C03": special_c03, "C04": special_c04, "C08": special_c08, "C16": special_c16, "C17": special_c17, "C18": special_c18})
+T.SPECIAL.update({"C10": ladder_translation, "C15": special_c15, "C09": special_c09, "C03": special_c03, "C04": special_c04, "C08": special_c08, "C16": special_c16, "C17": special_c17, "C18": special_c18})
